@@ -11,7 +11,7 @@ TOL = 1e-7
 
 
 def h_stopping(sym, mode="min", typ="stopping", B=1, perb=False, T=3, E=8, W=2, max_t=9,
-               grace=1, rf=3, incr=None, explicit=None, seed=0):
+               grace=1, rf=3, incr=None, explicit=None, seed=0, ntc=0):
     from syne_tune.optimizer.schedulers.hyperband import HyperbandScheduler
     from syne_tune.config_space import uniform
 
@@ -27,7 +27,11 @@ def h_stopping(sym, mode="min", typ="stopping", B=1, perb=False, T=3, E=8, W=2, 
             kw["reduction_factor"] = None
         else:
             kw["reduction_factor"] = rf
+    if ntc:
+        # RUSH: the first ntc trials are threshold candidates
+        kw["rung_system_kwargs"] = {"num_threshold_candidates": ntc}
     sch = make(HyperbandScheduler, cs, **kw)
+    thr = {}        # RUSH reference: rung level -> best metric of a candidate that continued there
     levels = ref_rung_levels(grace, max_t, rf=None if incr is not None or explicit is not None else rf,
                              incr=incr, explicit=explicit)
     nb = min(B, len(levels) + 1)
@@ -91,6 +95,12 @@ def h_stopping(sym, mode="min", typ="stopping", B=1, perb=False, T=3, E=8, W=2, 
                         expect = "CONTINUE"
                     elif v < cut - TOL:
                         expect = "STOP"
+                if ntc and expect == "CONTINUE" and tid >= ntc and r in thr:
+                    # RUSH (documented): on top of the quantile rule, a trial that is not a threshold candidate must be at
+                    # least as good as the best candidate seen at this rung; it can only stop MORE trials
+                    if (v > thr[r]) if mode == "min" else (v < thr[r]):
+                        expect = "STOP"
+                        sym.goal("stopped-by-threshold")
                 if expect == "STOP":
                     sym.goal("stop-at-rung")
                 if expect == "CONTINUE" and len(vals) >= 2:
@@ -106,6 +116,8 @@ def h_stopping(sym, mode="min", typ="stopping", B=1, perb=False, T=3, E=8, W=2, 
             sym.check(d == expect, "C03.decision", "trial %d level %d bracket %d: got %s, quantile rule says %s" % (tid, r, b, d, expect))
         else:
             sym.check(d in ("CONTINUE", "STOP"), "C03.decision-kind", str(d))
+        if ntc and tid < ntc and d == "CONTINUE" and r in own and r < max_t:
+            thr[r] = v if r not in thr else ((v if v < thr[r] else thr[r]) if mode == "min" else (v if v > thr[r] else thr[r]))
         if d != "CONTINUE":
             running.remove(tid)
     # rung contents as the scheduler sees them (public snapshot API) == reference
@@ -116,6 +128,56 @@ def h_stopping(sym, mode="min", typ="stopping", B=1, perb=False, T=3, E=8, W=2, 
             ref = sorted(t for t, _ in rungs.get(key, []))
             got = sorted(int(e.trial_id) for e in data)
             sym.check(ref == got, "C03.rung-contents", "system/level %s: scheduler has %s, reference %s" % (key, got, ref))
+    sym.goal("end")
+
+
+def h_rush_unit(sym, mode="min", N=5, ntc=1, rf=2, max_t=4):
+    """RUSH stopping rung system driven directly: N trials report at rung level 1 one after the other (trial ids 0..N-1, the
+    first ntc are threshold candidates), every metric symbolic.  Reference: the quantile rule, and on top of it (documented
+    RUSH rule) a trial that is not a candidate must be at least as good as the best candidate that continued at this rung --
+    RUSH can only stop MORE trials than the quantile rule."""
+    from syne_tune.optimizer.schedulers.hyperband_rush import RUSHStoppingRungSystem
+    levels = ref_rung_levels(1, max_t, rf=rf)
+    lp = levels[1:] + [max_t]
+    rs = RUSHStoppingRungSystem(rung_levels=list(levels), promote_quantiles=[x / y for x, y in zip(levels, lp)], metric="m", mode=mode,
+                                resource_attr="r", max_t=max_t, num_threshold_candidates=ntc)
+    q = levels[0] / lp[0]
+    vals = []
+    thr = None
+    order = list(range(N))
+    # the candidate need not report first: a symbolic rotation of the report order
+    rot = sym.choice("first", N)
+    order = order[rot:] + order[:rot]
+    for tid in order:
+        v = sym.real("m_%d" % tid, -100, 100)
+        rs.on_task_add(str(tid), skip_rungs=0)
+        out = rs.on_task_report(str(tid), {"m": v, "r": levels[0]}, skip_rungs=0)
+        sym.check(out["milestone_reached"], "C03.decision-kind", "unit: level %d is a rung level" % levels[0])
+        d = "CONTINUE" if out["task_continues"] else "STOP"
+        vals.append(v)
+        expect = None
+        if len(vals) < 2:
+            expect = "CONTINUE"
+        else:
+            cut = ref_quantile(vals, q if mode == "min" else 1 - q)
+            if mode == "min":
+                expect = "CONTINUE" if v < cut - TOL else ("STOP" if v > cut + TOL else None)
+            else:
+                expect = "CONTINUE" if v > cut + TOL else ("STOP" if v < cut - TOL else None)
+        if expect == "CONTINUE" and tid >= ntc and thr is not None:
+            if (v > thr) if mode == "min" else (v < thr):
+                expect = "STOP"
+                sym.goal("stopped-by-threshold")
+        if expect is None:
+            sym.fragile()
+        else:
+            sym.check(d == expect, "C03.decision", "unit (RUSH, %d threshold candidate(s)): trial %d with %d rung entries: got %s, rule says %s" % (ntc, tid, len(vals), d, expect))
+            if expect == "STOP" and tid >= ntc:
+                sym.goal("stop-at-rung")
+        if tid < ntc and d == "CONTINUE":
+            thr = v if thr is None else ((v if v < thr else thr) if mode == "min" else (v if v > thr else thr))
+        if d == "STOP":
+            rs.on_task_remove(str(tid))
     sym.goal("end")
 
 
@@ -146,7 +208,7 @@ def obligations(tier):
                           goals=("stop-at-rung", "continue-at-rung", "bracket-offset", "end"),
                           split=(("b0", (0, 1)), ("b1", (0, 1)), ("c1", (0, 1)), ("c2", (0, 1, 2))), budget_s=1500,
                           may_be_incomplete=not quick))
-    # other rung-level systems / rush_stopping (quantile part; no threshold candidates)
+    # other rung-level systems / rush_stopping (without and with threshold candidates)
     extra = [
         ("rush", dict(typ="rush_stopping", mode="min", B=1, T=3, E=7, W=2)),
         ("incr", dict(mode="max", B=2, T=3, E=7, W=2, incr=2, max_t=5)),
@@ -155,7 +217,12 @@ def obligations(tier):
     ]
     for name, p in extra:
         obs.append(Ob("C03.c[%s]" % name, "props.c03:h_stopping", p, bounds=p,
-                      goals=("stop-at-rung", "end") + (("stop-at-max",) if name == "rf2" else ()), split=(("c1", (0, 1)), ("c2", (0, 1, 2))), budget_s=1200))
+                      goals=("stop-at-rung", "end") + (("stop-at-max",) if name == "rf2" else ()) + (("stopped-by-threshold",) if "threshold" in name else ()),
+                      split=(("c1", (0, 1)), ("c2", (0, 1, 2))) + ((("c3", (0, 1, 2, 3)), ("c4", (0, 1, 2, 3, 4))) if "threshold" in name else ()), budget_s=1200))
+    for mode in ("min", "max"):
+        obs.append(Ob("C03.d[rush-unit,%s,threshold-candidates=1,N=4]" % mode, "props.c03:h_rush_unit", dict(mode=mode, N=4, ntc=1),
+                      bounds=dict(trials=4, rung_level=1, q="1/2", candidates=1, report_order="rotation (symbolic)", metrics="symbolic"),
+                      goals=("stopped-by-threshold", "stop-at-rung", "end"), split=(("first", (0, 1, 2, 3)),), budget_s=900))
     return obs
 
 
